@@ -100,6 +100,7 @@ package table
 //
 //@ func table.Build -> ix, r
 //@ props C11 C12
+//@ requires dataBlockSize >= 0
 //@ assigns BufC, BufStore, BufOwned
 //@ ensures r != nil ==> arrid(r) >= old(alloc)
 //@ ensures len(ix.Entries) >= 0 && (len(entries) > 0 ==> len(ix.Entries) >= 1)
@@ -109,6 +110,7 @@ package table
 //@   invariant (arrid(dataBlocks) >= old(alloc) || cap(dataBlocks) == 0) && (arrid(data.Entries) >= old(alloc) || cap(data.Entries) == 0)
 //@   invariant all(b, 0, len(dataBlocks), len(dataBlocks[b].Entries) > 0)
 //@   invariant rangeindex >= 0 ==> len(data.Entries) > 0
+//@   invariant currSize >= 0 && (currSize > 0 ==> len(data.Entries) > 0)
 //@ loop 1:
 //@   invariant buf != nil && BufOwned[ref(buf)] && !old(BufOwned)[ref(buf)] && forall(Int(x), old(BufOwned)[x] ==> (BufOwned[x] && BufC[x] == old(BufC)[x] && BufStore[x] == old(BufStore)[x]), trig(BufOwned[x]))
 //@   invariant (arrid(indexBlock.Entries) >= old(alloc) || cap(indexBlock.Entries) == 0)
